@@ -141,6 +141,14 @@ func vC14[T vScalar]() {
 	if !same || d.Dtype() != t.Dtype() {
 		return
 	}
+	// formats that carry the data order hand back a tensor of the source's order (and compact if the source was): later
+	// operations dispatch on these flags, not on the strides
+	if (format == "gob" || format == "pb" || format == "fb") && (layout == "C" || layout == "F") && len(shape) >= 2 && vProd(shape) > 1 {
+		vAssert(d.DataOrder().IsColMajor() == t.DataOrder().IsColMajor(), "data-order-flag")
+		if bits == nil {
+			vAssert(!d.RequiresIterator(), "decoded-compact") // (a masked tensor always asks for an iterator)
+		}
+	}
 	carriesMask := format == "gob" // the protobuf and flatbuffers schemas used by PBEncode/FBEncode have no mask field
 	valueOnly := format == "csv" // text carries values, not NaN payloads
 	var fill T
